@@ -283,6 +283,12 @@ def pipeline_case(args):
         extra += ["--report_canonical", param[1], "--model_construction_strategy", "all"]
     elif kind == "shared":
         w = None
+    elif kind == "mixed":
+        # the multi-chromosome world of C06/C10: novel isoforms whose extra exons lie beyond the annotated gene's end (canonical sites
+        # planted), novel genes, ISM and mono-exonic reads, multimappers
+        from vlib import worlds as W
+        w = W.mixed_world(param[0], groups=False, multimappers=True)
+        extra += ["--report_canonical", param[1], "--model_construction_strategy", "all"]
     else:
         w, loci = novel_world(swap=param.endswith("/swap"))
         extra += ["--report_canonical", param.split("/")[0], "--model_construction_strategy", "all"]
@@ -406,6 +412,7 @@ def run(ctx):
     n = 3 if quick else 4
     orders = sorted(set(itertools.product("lr", repeat=n)) - {("l",) * n, ("r",) * n})
     jobs = [("anti", o, ctx.scratch) for o in orders] + [("antinovel", (v, lvl), ctx.scratch) for v in (0, 1, 2) for lvl in ("all", "auto")] + \
+        [("mixed", (n, lvl), ctx.scratch) for n in ((2,) if quick else (1, 2, 3)) for lvl in ("auto", "all")] + \
         [("shared", (mf, wk, rf, lvl), ctx.scratch) for mf in (0, 1) for wk in (0, 1) for rf in (0, 1) for lvl in ("all", "auto")] + [("novel", lvl + sw, ctx.scratch) for lvl in ("auto", "only_canonical", "only_stranded", "all") for sw in ("", "/swap")]
     nchecked = 0
     for kind, param, nc, errs in core.pmap(pipeline_case, jobs):
